@@ -9,6 +9,7 @@ import (
 	"image/color"
 	"io"
 	"math/rand"
+	"os"
 	"time"
 
 	"github.com/deepteams/webp"
@@ -285,6 +286,40 @@ func colorToNRGBA8(im image.Image, x, y int) [4]int {
 	return [4]int{int(c.R), int(c.G), int(c.B), int(c.A)}
 }
 
+// hangVerdict is called when a library call running in this process has not returned within its wall-clock limit.
+// Wall time depends on what else the machine is doing, so the decision is taken from this process's CPU time:
+// "blocked" = no CPU used for 15 s (deadlock, lost wake-up), "spinning" = the process has used more CPU than
+// max(4 x limit, 2 min) since the call started and the call is still not back, "finished" = done fired meanwhile.
+// Until one of these holds it keeps waiting (a busy machine only makes it wait longer).
+func hangVerdict(done <-chan struct{}, cpuAtStart time.Duration, limit time.Duration) string {
+	budget := 4 * limit
+	if budget < 2*time.Minute {
+		budget = 2 * time.Minute
+	}
+	last := procCPU(os.Getpid())
+	idle := 0
+	for {
+		select {
+		case <-done:
+			return "finished"
+		case <-time.After(5 * time.Second):
+		}
+		now := procCPU(os.Getpid())
+		if now-last < 20*time.Millisecond {
+			idle++
+			if idle >= 3 {
+				return "blocked"
+			}
+		} else {
+			idle = 0
+		}
+		last = now
+		if now-cpuAtStart > budget {
+			return "spinning"
+		}
+	}
+}
+
 // activeRun is the run that guardedDecode reports to.
 var activeRun *vx.Run
 
@@ -315,7 +350,10 @@ func guardedDecodeFrom(data []byte, rd io.Reader) (image.Image, error) {
 		err error
 	}
 	ch := make(chan res, 1)
+	done := make(chan struct{})
+	cpu0 := procCPU(os.Getpid())
 	go func() {
+		defer close(done)
 		defer func() {
 			if r := recover(); r != nil {
 				ch <- res{nil, fmt.Errorf("panic: %v", r)}
@@ -329,8 +367,13 @@ func guardedDecodeFrom(data []byte, rd io.Reader) (image.Image, error) {
 	case r := <-ch:
 		return r.im, r.err
 	case <-time.After(limit):
+		v := hangVerdict(done, cpu0, limit)
+		if v == "finished" {
+			r := <-ch
+			return r.im, r.err
+		}
 		if activeRun != nil {
-			activeRun.Violate("hang|webp.Decode", fmt.Sprintf("webp.Decode did not return within %v on a %d-byte input", limit, len(data)), map[string]any{"bytes": data})
+			activeRun.Violate("hang|webp.Decode", fmt.Sprintf("webp.Decode did not return within %v on a %d-byte input (%s)", limit, len(data), v), map[string]any{"bytes": data})
 			activeRun.Finish()
 		}
 		vx.Fatal2("webp.Decode hangs")
